@@ -273,7 +273,7 @@ def second_generation_edits(g, case, r, ir2, node, res):
                     del bi.symbolic_expressions[off]
                 else:
                     bi.symbolic_expressions[off] = g.SymAddrConst(e - 20, sym, {g.SymbolicExpression.Attribute.PLT} if e % 3 else set())
-                bi.size = max(bi.size, len(bi.contents)) + 1
+                bi.size = min(max(bi.size, len(bi.contents)) + 1, (1 << 64) - 1)
         elif kind == 4 and r.mods:
             mi = r.mods[e % len(r.mods)]
             m = lookup(r.uuid(mi["spec"]))
